@@ -205,7 +205,7 @@ def floors(tier):
     cells = [('mode-route', r, o, rt) for r in G.ROUNDINGS for o in G.OVERFLOWS for rt in ('constructor', 'call', 'set_val', 'setitem')]
     cells += [('family', f) for f in ('pyint', 'pyfloat', 'str', 'npf', 'npi', 'npu', 'arrf', 'arri', 'arru', 'list', 'tuple', 'pycomplex')]
     cells += [('noncontiguous_carrier', c) for c in ('1d', '2d', 'bigfloat2d')] + [('object_array_mixed',)] + [('object_array_numpy_first', t) for t in ('float32', 'float16', 'int8', 'uint8', 'int16')]
-    cells += [('complex_real_indexed', k_) for k_ in ('array', 'scalar', 'huge')]
+    cells += [('complex_real_indexed', k_) for k_ in ('array', 'scalar', 'huge')] + [('complex_into_real_typed', k_) for k_ in ('like()', 'add-out_like', 'mul-out', 'Fxp(x, like=)')] + [('complex_indexed_store', k_) for k_ in ('dtype-string', 'resize-dtype', 'real-object')]
     if np.finfo(np.longdouble).nmant > 52:
         cells += [('extended_precision_containers',)]
     return cells
@@ -462,3 +462,68 @@ def run_case(case, ctx):
                 ok = False
             ctx.judged(('complex-real-indexed-store', kind_), True, None)
             ctx.floor_hit(('complex_real_indexed', kind_))
+        # complex codes that reach an object whose value type was real (like() into a real template, an operation into an out_like / out template):
+        # every component is read back as code * LSB
+        fm_ = ctx.mon.fxpmath
+        wt_ = min(w + rng.randint(0, 6), 44)
+        nft_ = max(0, min(nf, wt_)) if rng.random() < 0.7 else rng.randint(0, wt_)
+        for route in ('like()', 'add-out_like', 'mul-out', 'Fxp(x, like=)'):
+            try:
+                xc = Fxp(np.array(cs), s, w, nf, rounding=r, overflow=o)
+                yc = Fxp(np.array(cs[::-1]), s, w, nf, rounding=r, overflow=o)
+                tmpl = Fxp(None if route != 'mul-out' else np.zeros(4), True, wt_, nft_, rounding=r, overflow=o)
+                if route == 'like()':
+                    z = xc.like(tmpl)
+                elif route == 'add-out_like':
+                    z = fm_.add(xc, yc, out_like=tmpl)
+                elif route == 'mul-out':
+                    z = fm_.mul(xc, yc, out=tmpl)
+                else:
+                    z = Fxp(xc, like=tmpl)
+                codes_ = np.asarray(z.val)
+                got = np.asarray(z.get_val())
+            except Exception:
+                continue
+            if not np.iscomplexobj(codes_):
+                continue
+            lsb_ = 2.0 ** -z.n_frac
+            if not (np.iscomplexobj(got) and np.array_equal(got.real, codes_.real * lsb_) and np.array_equal(got.imag, codes_.imag * lsb_)):
+                ctx.violation('complex_readback', 'complex codes %r reached a %s object by %s: get_val() returns %r (dtype %s, value type %r)' % (
+                    codes_.tolist(), R.dtype_fxp(True, wt_, nft_), route, got.tolist(), z.dtype, z.vdtype), key='read.complex_into_real_typed')
+            ctx.judged(('complex-into-real-typed', route), True, None)
+            ctx.floor_hit(('complex_into_real_typed', route))
+        # an object made complex by its dtype string while the value is real, and a real object: a complex value written by index keeps both components,
+        # a real one keeps the object complex
+        for how in ('dtype-string', 'resize-dtype', 'real-object'):
+            try:
+                rv_ = [float(v) for v in vals[:3]]
+                dts = R.dtype_fxp(s, w, nf, True)
+                if how == 'dtype-string':
+                    xd = Fxp(rv_, dtype=dts, rounding=r, overflow=o)
+                elif how == 'resize-dtype':
+                    xd = Fxp(rv_, s, w, nf, rounding=r, overflow=o)
+                    xd.resize(dtype=dts)
+                else:
+                    xd = Fxp(rv_, s, w, nf, rounding=r, overflow=o)
+                ref = Fxp(cs[1], s, w, nf, rounding=r, overflow=o)         # the same complex value stored by the constructor
+                xd[1] = cs[1]
+                codes_ = np.asarray(xd.val)
+                want = complex(np.asarray(ref.val).item())
+                got1 = complex(codes_[1]) if np.iscomplexobj(codes_) else complex(codes_[1].item(), 0)
+                dt_after = xd.dtype
+                rd = np.asarray(xd.get_val())
+            except Exception as ex:     # noqa
+                ctx.violation('complex_indexed_raises', 'complex value written by index into %s (%s) raised %s: %s' % (R.dtype_fxp(s, w, nf), how, type(ex).__name__, str(ex)[:100]), key='store.complex_indexed_raises')
+                continue
+            if got1 != want or 'complex' not in str(dt_after) or not np.iscomplexobj(rd):
+                ctx.violation('complex_indexed', 'x[1] = %r into %s (%s): codes %r (the constructor stores %r), dtype %s, read back %r' % (
+                    cs[1], R.dtype_fxp(s, w, nf), how, codes_.tolist(), want, dt_after, rd.tolist()), key='store.complex_indexed')
+            if how != 'real-object':
+                try:
+                    xd[0] = rv_[2]
+                    if 'complex' not in str(xd.dtype) or not np.iscomplexobj(np.asarray(xd.get_val())):
+                        ctx.violation('complex_lost', 'a real value written by index into a %s object (%s) made it real: dtype %s' % (dts, how, xd.dtype), key='store.complex_lost')
+                except Exception:
+                    pass
+            ctx.judged(('complex-indexed-store', how), True, None)
+            ctx.floor_hit(('complex_indexed_store', how))
